@@ -246,10 +246,14 @@ func newSessEnv() *zygo.Zlisp {
 var addrRe = regexp.MustCompile(`0x[0-9a-f]+`)
 var uidRe = regexp.MustCompile(`[0-9]{6,}`)
 
+// generated names (__gensym12, __range_i271, __anon5, __loop7): their numbers depend on how many symbols
+// were interned before, which differs between evaluating pieces and evaluating them together
+var sessGenNameRe = regexp.MustCompile(`(__[A-Za-z_]*[A-Za-z_])[0-9]+`)
+
 func printedOutcome(env *zygo.Zlisp, o outcome) any {
 	if o.Kind == "val" {
 		// addresses and the per-case unique numbers in generated names are masked
-		return []any{"val", uidRe.ReplaceAllString(addrRe.ReplaceAllString(o.Val.SexpString(nil), "0xADDR"), "N")}
+		return []any{"val", sessGenNameRe.ReplaceAllString(uidRe.ReplaceAllString(addrRe.ReplaceAllString(o.Val.SexpString(nil), "0xADDR"), "N"), "${1}N")}
 	}
 	if o.Kind == "err" {
 		return []any{"err"}
